@@ -1,4 +1,4 @@
-HOOK_COMMITS = ["358b29f", "6cd9f5c", "5546540"]
+HOOK_COMMITS = ["358b29f", "6cd9f5c", "5546540", "d5e2d64"]
 FIX_COMMITS = ["923416a", "a6cf66b", "1830814", "c137568", "96c0ea9"]
 
 NOTES = ("All checks are ./check <id> --tier quick|thorough (runner/vrunner.py). Every engine is rebuilt "
